@@ -264,7 +264,7 @@ where
         let one_fourth = Self::Field::one() / four;
 
         let one_hundred = Self::Field::from_u8(100).ok_or(IVPError::FromPrimitiveFailure)?;
-        let eighty_four = Self::Field::from_u8(100).ok_or(IVPError::FromPrimitiveFailure)?;
+        let eighty_four = Self::Field::from_u8(84).ok_or(IVPError::FromPrimitiveFailure)?;
         let point_eighty_four = eighty_four / one_hundred;
 
         let t_coefficients = BSVector::from_iterator(
